@@ -114,6 +114,7 @@ KEY_TYPES = [
     'nat', 'nat', 'int', 'string', 'bytes', 'timestamp', 'address', 'key_hash', 'key', 'mutez', 'bool', 'chain_id', 'signature',
     ('pair', 'int', 'int'), ('pair', 'string', 'bytes'), ('pair', 'nat', ('pair', 'nat', 'nat')), ('pair', ('pair', 'int', 'string'), 'nat'),
     ('pair', 'address', 'nat'), ('pair', ('pair', 'nat', 'nat'), ('pair', 'nat', 'nat')),
+    ('pair', 'nat', ('pair', 'string', ('pair', 'bytes', 'int'))), ('pair', 'int', ('pair', 'nat', ('pair', ('option', 'nat'), ('pair', 'bool', 'string')))),
     ('option', 'int'), ('option', ('pair', 'nat', 'string')), ('or', 'int', 'string'), ('or', ('pair', 'int', 'int'), ('option', 'string')),
     ('pair', ('option', ('or', 'int', 'string')), ('pair', 'address', 'nat')), ('or', 'key_hash', 'address'), ('pair', 'timestamp', 'key_hash'),
     ('option', 'unit'), ('or', 'unit', 'bool'),
@@ -705,12 +706,14 @@ def regressions():
 def run(ctx):
     status = extract.generate(PROP)
     # the typed-key theorems rest on the C03 mirror of __eq__ / __lt__: its tables are re-read from the source as well
-    status.update({f'C03 {k}': v for k, v in extract.generate('C03').items()})
+    # (listed as `dep:C03 …`: obligations of the dependency, re-checked here because a comparison method that changes shape
+    # re-opens `C15.key_order_strictTotal` and with it every `typed_*` theorem)
+    status.update({f'dep:C03 {k}': v for k, v in extract.generate('C03').items()})
     ctx.prepare_lean(status)
     quick = ctx.tier == 'quick'
     max_len = 25 if quick else 200
     ctx.extra['rule'] = (
-        'one Interpreter.run_code call per case with a stub shell; key type from a list of 28 comparable types (nat, int, string, bytes, '
+        'one Interpreter.run_code call per case with a stub shell; key type from a list of 30 comparable types (nat, int, string, bytes, '
         'timestamp, address, key_hash, key, pair, nested pairs, option, or, …) or random (nesting <= 2), universe of 3-6 near-equal keys '
         '(gen_c03.near); value type nat / string / bytes / bool / unit / option / list / set / map with code 0 = the falsy value; the big maps '
         'enter as storage literal (alloc), storage id (update) or parameter id (copy), one or two big maps in the storage, random on-chain '
@@ -727,7 +730,7 @@ def run(ctx):
         'Blake2b / SHA-256 are hashlib (abstract function in the Lean theorems); the legacy PACK of a key is recomputed by a local Micheline forger',
     ]
     cases = regressions()
-    n_random = 1300 if quick else 6000
+    n_random = 1100 if quick else 6000
     for _ in range(n_random):
         cases.append(random_case(ctx.rng, max_len if ctx.rng.random() < (0.4 if quick else 0.15) else 12))
     n_ex = 0
@@ -762,7 +765,7 @@ def run(ctx):
                 small = shrink(case)
                 shrunk += 1
                 what = oracle(small, run_impl(small))
-                ctx.violation(f'{topic}: {short(small)}'[:300], f'{short(small)} -> {what}', {'case': describe(small), 'what': what, 'from': describe(case)})
+                ctx.violation(f'{topic}: {short(small)}'[:400], what, {'case': describe(small), 'what': what, 'from': describe(case)})
             else:
                 ctx.count('violations_not_shrunk', 1)
                 ctx.violation(f'{topic} (unshrunk): {short(case)}'[:300], bad, {'case': describe(case), 'what': bad})
